@@ -8,7 +8,7 @@
 From Coq Require Import ZArith List Bool QArith Qcanon Qcabs Lia.
 Require Import SPP.Base.Rt SPP.Model.C15_np SPP.Gen.Stats.
 Require Import SPP.Proofs.C15_lib SPP.Proofs.C15_order SPP.Proofs.C15_rel SPP.Proofs.C15_view SPP.Proofs.C15_lanes
-               SPP.Proofs.C15_lanes2 SPP.Proofs.C15_glue SPP.Proofs.C15_main.
+               SPP.Proofs.C15_lanes2 SPP.Proofs.C15_glue SPP.Proofs.C15_main SPP.Proofs.C15_fields.
 Import ListNotations.
 Open Scope Z_scope.
 
@@ -141,6 +141,54 @@ Theorem C15_zscore_equivariant : forall (np_sqrt : Qc -> Qc) sh (a b : Qc) data 
 Proof. exact (fun np_sqrt => zscore_equivariant np_sqrt nd_memo memo_ok_nd_memo). Qed.
 Print Assumptions C15_zscore_equivariant.
 
+(** * the other two fields of the result (ZScoreResult.loc, .scale), along an axis: the location returned is the location of the
+    lane; the divisor returned is what estimate_scale returns for the lane as a 1-D array, or 1; it is 1, and the Z-scores are
+    x - loc, when that estimate is zero; both broadcast against the data.  ([loc_fn]: median / mean.) *)
+Theorem C15_zscore_fields_axis : forall np_sqrt np_pi np_std1 biweight1 np_cov01 sh A m F lm f k0 I0,
+  sh <> nil -> shape A = sh -> scale_fn np_sqrt np_pi biweight1 np_cov01 m = Some F -> loc_fn lm = Some f ->
+  in_range sh I0 -> - Z.of_nat (length sh) <= k0 < Z.of_nat (length sh) -> let k := axis_of sh k0 in 1 <= nth k sh 0 ->
+  exists z l s v, estimate_zscore np_sqrt np_pi np_std1 biweight1 np_cov01 nd_memo A lm m (Some k0) = Some (z, l, s) /\
+    estimate_scale np_sqrt np_pi np_std1 biweight1 np_cov01 nd_memo (of_vec (lane A k I0)) m None false = Some (scalar v) /\
+    bc sh (shape l) /\ bc sh (shape s) /\ shape z = sh /\
+    forall j, 0 <= j < nth k sh 0 -> let I := set_nth k j I0 in
+      rd l I = f (lane A k I0) /\ (rd s I = qz 1 \/ rd s I = v) /\ (Q2Qc 0 < rd s I)%Qc /\
+      rd z I = ((rd A I - f (lane A k I0)) / rd s I)%Qc /\
+      (v = qz 0 -> rd s I = qz 1 /\ rd z I = (rd A I - f (lane A k I0))%Qc).
+Proof. exact main_zscore_fields_axis. Qed.
+Print Assumptions C15_zscore_fields_axis.
+
+(** a sample whose scale estimate is zero, under x -> a x + b: unit divisor on both sides, Z-scores x - loc and a (x - loc) *)
+Theorem C15_zscore_zero_scale_affine : forall (np_sqrt : Qc -> Qc) sh (a b : Qc) data data' loc loc' sc sc' axis I,
+  a <> Q2Qc 0 -> sh <> nil -> shape data = sh -> bc sh (shape loc) -> bc sh (shape sc) -> in_range sh I ->
+  rel_of (affine a b) data data' -> rel_of (affine a b) loc loc' -> rel_of (scale (Qcabs a)) sc sc' ->
+  rd sc I = qz 0 ->
+  let '(z, _, s) := ztail nd_memo data loc sc axis in
+  let '(z', _, s') := ztail nd_memo data' loc' sc' axis in
+  rd s I = qz 1 /\ rd s' I = qz 1 /\ rd z I = (rd data I - rd loc I)%Qc /\ rd z' I = (a * (rd data I - rd loc I))%Qc.
+Proof. exact (zscore_zero_scale_affine nd_memo memo_ok_nd_memo). Qed.
+Print Assumptions C15_zscore_zero_scale_affine.
+
+(** the 'norm' methods on 1-D data: scale method 'norm' divides by 1 (Z-scores x - loc, for every location method); location
+    method 'norm' returns a location that reads 0.  PARTIAL: 1-D data only (np.ones(1) against data of rank >= 2 is outside [bc]). *)
+Theorem C15_zscore_norm_1d_partial : forall np_sqrt np_pi np_std1 biweight1 np_cov01 n A lm axis loc I, shape A = n :: nil ->
+  (if loc_method_eqb lm L_norm then Some (const1 (qz 0)) else estimate_loc A lm axis true) = Some loc ->
+  bc (n :: nil) (shape loc) -> in_range (n :: nil) I ->
+  exists z s, estimate_zscore np_sqrt np_pi np_std1 biweight1 np_cov01 nd_memo A lm S_norm axis = Some (z, nd_memo loc, s) /\
+    rd s I = qz 1 /\ rd z I = (rd A I - rd loc I)%Qc /\ shape z = n :: nil /\ (lm = L_norm -> rd (nd_memo loc) I = qz 0).
+Proof. exact main_zscore_norm_1d_partial. Qed.
+Print Assumptions C15_zscore_norm_1d_partial.
+
+(** estimate_scale(keepdims=False) along an axis: the per-lane estimates in the input's shape without the reduced axis; a single lane
+    comes back as a scalar.  PARTIAL: the value of that scalar is not stated here (C15_keepdims_axis states it for keepdims=True). *)
+Theorem C15_nokeepdims_axis_partial : forall np_sqrt np_pi np_std1 biweight1 np_cov01 sh A m F k0 I0,
+  sh <> nil -> shape A = sh -> scale_fn np_sqrt np_pi biweight1 np_cov01 m = Some F -> in_range sh I0 ->
+  let k := axis_of sh k0 in 1 <= nth k sh 0 ->
+  exists B, estimate_scale np_sqrt np_pi np_std1 biweight1 np_cov01 nd_memo A m (Some k0) false = Some B /\
+    (size (F A (Some k0)) = 1 -> shape B = nil) /\
+    (size (F A (Some k0)) <> 1 -> shape B = remove_nth k sh /\ get B (remove_nth k I0) = get (F (of_vec (lane A k I0)) None) nil).
+Proof. exact main_nokd_axis_partial. Qed.
+Print Assumptions C15_nokeepdims_axis_partial.
+
 (** * non-vacuity *)
 Definition exA : nd := nd_of_list [2; 3] (qz 1 :: qz 5 :: qz 2 :: qz 4 :: qz 0 :: qz 9 :: nil).
 (** the hypotheses of the lane theorems are met by a 2 x 3 array, axis 0, lane through (1, 2) *)
@@ -160,3 +208,34 @@ Example C15_ex_values :
   (match zsc (nd_of_list [1; 3] (qz 4 :: qz 4 :: qz 4 :: nil)) L_median S_mad (Some 1) with
    | Some (z, _, s) => Qceqb (get s [0; 0]) (qz 1) && Qceqb (get z [0; 1]) (qz 0) | None => false end) = true.
 Proof. vm_compute. split; reflexivity. Qed.
+
+(** the hypotheses of the field / norm / keepdims=False theorems are met: exA, axis 0, mad + median; a 1-D array with 'norm' *)
+Example C15_ex_fields_hyps :
+  scale_fn approx_sqrt approx_pi (fun _ => qz 0) cov01 S_mad = Some (scale_mad approx_sqrt approx_pi nd_memo) /\ loc_fn L_median = Some median1 /\
+  - Z.of_nat (length [2; 3]) <= 0 < Z.of_nat (length [2; 3]) /\ size (scale_mad approx_sqrt approx_pi nd_memo exA (Some 0)) <> 1 /\
+  (if loc_method_eqb L_norm L_norm then Some (const1 (qz 0)) else estimate_loc (of_vec (qz 1 :: qz 5 :: nil)) L_norm None true) = Some (const1 (qz 0)) /\
+  bc (2 :: nil) (shape (const1 (qz 0))) /\ in_range (2 :: nil) (1 :: nil).
+Proof. split; [reflexivity|]. split; [reflexivity|]. split; [cbn; lia|]. split; [intro H; vm_compute in H; discriminate|].
+  split; [reflexivity|]. split; [right; constructor; [now left|constructor]|]. cbn. lia. Qed.
+(** ... and they say what one expects.  exB: row 0 is heavily tied (IQR 0, a zero scale estimate with non-zero deviations), row 1
+    is not.  iqr + median along axis 1: the location field is the median of each row; the divisor field is 1 on row 0 and the IQR
+    scale on row 1; row 0 of the Z-scores is x - median, and under x -> -3 x + 1 it is -3 (x - median); the keepdims=False result
+    has shape (2,).  A small-amplitude array (multiples of 2^-30) under a = 2^-6: the MAD scale is multiplied by 2^-6 and is not 0. *)
+Definition exB : nd := nd_of_list [2; 8] (map qz [2; 2; 2; 2; 2; 2; 2; 9;  1; 5; 2; 4; 0; 9; 7; 3]).
+Definition exT : nd := nd_map (fun x => x * qfrac 1 1073741824)%Qc exA.
+Example C15_ex_fields_values :
+  let est := estimate_scale approx_sqrt approx_pi std1 (fun _ => qz 0) cov01 nd_memo in
+  let zsc := estimate_zscore approx_sqrt approx_pi std1 (fun _ => qz 0) cov01 nd_memo in
+  (match zsc exB L_median S_iqr (Some 1), zsc (nd_map (affine (qz (-3)) (qz 1)) exB) L_median S_iqr (Some 1), est exB S_iqr (Some 1) false with
+   | Some (z, l, s), Some (z', _, s'), Some B =>
+       shape_eqb (shape l) [2; 1] && shape_eqb (shape s) [2; 1] && shape_eqb (shape B) [2] &&
+       Qceqb (get l [0; 0]) (qz 2) && Qceqb (get l [1; 0]) (qfrac 7 2) &&
+       Qceqb (get s [0; 0]) (qz 1) && Qceqb (get s' [0; 0]) (qz 1) && Qceqb (get s [1; 0]) (get B [1]) && negb (Qceqb (get B [1]) (qz 0)) &&
+       Qceqb (get B [0]) (qz 0) && Qceqb (get z [0; 7]) (qz 7) && Qceqb (get z' [0; 7]) (qz (-21)) && Qceqb (get z [0; 0]) (qz 0)
+   | _, _, _ => false end) = true /\
+  (match zsc (of_vec (qz 1 :: qz 5 :: nil)) L_norm S_norm (Some 0) with
+   | Some (z, l, s) => Qceqb (get z [1]) (qz 5) && Qceqb (get l [0]) (qz 0) && Qceqb (get s [0]) (qz 1) | None => false end) = true /\
+  (match est exT S_mad (Some 0) true, est (nd_map (affine (qfrac 1 64) (qz 0)) exT) S_mad (Some 0) true with
+   | Some B, Some B2 => Qceqb (get B2 [0; 2]) (Qcmult (qfrac 1 64) (get B [0; 2])) && negb (Qceqb (get B [0; 2]) (qz 0)) && Qcltb (get B2 [0; 2]) (qdec 1 8)
+   | _, _ => false end) = true.
+Proof. vm_compute. repeat split; reflexivity. Qed.
